@@ -98,6 +98,7 @@ RULES = [
  ('queued by a failed build and then overwritten', 'C01', 'stale-value + stale-value/xlsx-stored-result-of-cell-built-after-write (after a failed build, set_value over a formula cell the build had queued: the written value was wiped by the next evaluate)'),
  ('sheet can be given to a sheet-less A:A', 'C05', "sheetless-unbounded-raises (evaluate('A:A') on the active sheet raised ValueError: the corner 'A' was parsed as a cell)"),
  ('intersect in one empty cell', 'C02', 'reference-call/intersection-in-one-blank-cell/* (=SUM(A5:C5 B4:B6) over an empty B5 raised FormulaEvalError: the one-cell result of the intersection was walked as a range; remark of a round 6 agent)'),
+ ('range operator between two written references declares', 'C04', 'read-not-declared/range-operator + ancestors-miss-influencer/range-operator + influence-outside-ancestors/range-operator (=SUM((A1:B2):C3) reads A1:C3, only A1:B2 and C3 were declared: a write to C1 left it stale; remark of a round 6 agent)'),
 ]
 
 
